@@ -1,5 +1,8 @@
 import CasbinVerif.Model.Loader
 import CasbinVerif.Properties.C06
+import CasbinVerif.Proofs.C18Flag
+import CasbinVerif.Proofs.C18Filter
+import CasbinVerif.Proofs.C18Load
 /-
   C18 — Filtered loading loads exactly the subset and cannot clobber the store.
 
@@ -29,7 +32,17 @@ def fieldOk (f : List Char) : Bool := f.all (fun c => c != ',' && c != '"' && c 
 theorem filterLine_spec (pt : List Char) (rule : List (List Char)) (f : Filter)
     (hpt : fieldOk pt = true) (hr : rule.all fieldOk = true) :
     filterLine (joinFields (pt :: rule)) f = !matchesLeading (f.sliceFor (trim pt)) rule := by
-  sorry
+  have hcf : ∀ g ∈ pt :: rule, ∀ c ∈ g, c ≠ ',' := by
+    intro g hg c hc
+    have hg' : fieldOk g = true := by
+      rcases List.mem_cons.1 hg with rfl | hg
+      · exact hpt
+      · exact List.all_eq_true.1 hr g hg
+    have := List.all_eq_true.1 hg' c hc
+    simp only [Bool.and_eq_true, bne_iff_ne, ne_eq] at this
+    exact this.1.1
+  rw [filterLine_join joinFields (fun _ => rfl) (fun _ _ _ => rfl) pt rule f hcf]
+  rfl
 
 /-- parsed entries: (type, rule) -/
 def loadEntries (md : ModelDef) (st : Stores) : List (String × Rule) → Option Stores
@@ -59,14 +72,29 @@ def storesOk (md : ModelDef) (st : Stores) : Prop :=
   (∀ pt s, st.1.lookup pt = some s → Coh s ∧ ∀ r ∈ s.policy, r.all commaFree = true ∧ r ≠ []) ∧
   (∀ gt s, st.2.lookup gt = some s → Coh s ∧ ∀ r ∈ s.policy, r.all commaFree = true ∧ r ≠ [])
 
+/-- the definitions above are those the helper lemmas of `Proofs/C18Load.lean` are stated for -/
+theorem loadEntries_eq : @loadEntries = @C18L.loadEntries := by
+  funext md st es
+  induction es generalizing st with
+  | nil => rfl
+  | cons e es ih =>
+    obtain ⟨pt, r⟩ := e
+    simp only [loadEntries, C18L.loadEntries]
+    cases Enf.loadLine md st.1 st.2 pt r with
+    | none => rfl
+    | some x => exact ih _
+
 /-- loading accepted entries: per type, the listed rules grow by the entries' rules of that type
     that are not yet listed, in order, once each — `LoadIncrementalFilteredPolicy` adds the matching
     rules to those already loaded -/
 theorem loadEntries_adds (md : ModelDef) (st : Stores) (es : List (String × Rule))
-    (hst : storesOk md st) (hdis : ∀ pt, pt ∈ md.p.map (·.1) → pt ∉ md.g.map (·.1)) (hes : es.all (entryOk md) = true) :
+    (hst : storesOk md st) (hdis : ∀ pt, pt ∈ md.p.map (·.1) → pt ∉ md.g.map (·.1))
+    (hes : es.all (entryOk md) = true) :
     ∃ st', loadEntries md st es = some st' ∧ storesOk md st' ∧
       ∀ pt, rulesOf st' pt = ((es.filter (·.1 == pt)).map (·.2)).foldl SpecStore.addOne (rulesOf st pt) := by
-  sorry
+  have h := C18L.loadEntries_adds md st es hst hdis hes
+  rw [← loadEntries_eq] at h
+  exact h
 
 /-- a filtered load from scratch lists exactly the selected rules: loading only the entries a
     predicate keeps gives, per type, the full load's rules restricted by that predicate -/
@@ -74,25 +102,45 @@ theorem filtered_load_exact (md : ModelDef) (st : Stores) (es : List (String × 
     (hst : storesOk md st) (hempty : ∀ pt, rulesOf st pt = []) (hes : es.all (entryOk md) = true) :
     ∃ full part, loadEntries md st es = some full ∧ loadEntries md st (es.filter keep) = some part ∧
       ∀ pt, rulesOf part pt = (rulesOf full pt).filter (fun r => keep (pt, r)) := by
-  sorry
+  have h := C18L.filtered_load_exact md st es keep hst hempty hes
+  rw [← loadEntries_eq] at h
+  exact h
 
 /-- SavePolicy writes the file exactly when the policy is not filtered … -/
 theorem save_guard (filtered : Bool) : (flagStep filtered .save).2 = !filtered ∧ (flagStep filtered .save).1 = filtered := by
-  sorry
+  exact ⟨rfl, rfl⟩
 
 /-- … and along any sequence of loads and save attempts the flag is false exactly when the last
     successful load was a full load -/
 theorem guard_tracks_view (calls : List Call) :
     (flagRun true calls).1 = false ↔
       ∃ pre post, calls = pre ++ .loadFull true :: post ∧ ∀ c ∈ post, c ≠ .loadFiltered true := by
-  sorry
+  rw [flagRun_false_iff]
+  simp
 
 /-- consequently a save that writes is never preceded by a successful filtered load without a
     successful full load in between: a partial view never overwrites the full policy -/
 theorem no_clobber (calls : List Call) (i : Nat) (hi : calls[i]? = some .save)
     (hw : (flagRun true calls).2[i]? = some true) :
     ∃ j, j < i ∧ calls[j]? = some (.loadFull true) ∧ ∀ k, j < k → k < i → calls[k]? ≠ some (.loadFiltered true) := by
-  sorry
+  rw [flagRun_writes_getElem?, hi] at hw
+  simp only [Option.map_some, Option.some.injEq, flagStep, Bool.not_eq_true'] at hw
+  obtain ⟨pre, post, e, hpost⟩ := (guard_tracks_view (calls.take i)).1 hw
+  have hlen : pre.length + 1 + post.length ≤ i := by
+    have := congrArg List.length e
+    simp only [List.length_take, List.length_append, List.length_cons] at this
+    omega
+  have hget : ∀ k, k < i → calls[k]? = (pre ++ Call.loadFull true :: post)[k]? := by
+    intro k hk
+    rw [← e, List.getElem?_take_of_lt hk]
+  refine ⟨pre.length, by omega, ?_, ?_⟩
+  · rw [hget _ (by omega)]
+    simp
+  · intro k hjk hki hk
+    rw [hget k hki, List.getElem?_append_right (by omega)] at hk
+    obtain ⟨m, hm⟩ : ∃ m, k - pre.length = m + 1 := ⟨k - pre.length - 1, by omega⟩
+    rw [hm, List.getElem?_cons_succ] at hk
+    exact hpost _ (List.mem_of_getElem? hk) rfl
 
 /-! ### non-vacuity -/
 example : filterLine "p, alice , data1, read".toList { p := ["alice".toList] } = false := by decide
